@@ -386,7 +386,7 @@ pub async fn step_auth(h: &mut Harness, op: &Op) {
         Op::LoginPat { c, token_ref } => login_pat(h, *c, *token_ref).await,
         Op::GetUsers { c } => {
             if authed(h, *c) {
-                let result = h.clients[*c].as_ref().unwrap().get_users().await;
+                let result = crate::routed!(h, *c, get_users());
                 if h.perm_gate("get_users", result.is_ok(), result.as_ref().err()) {
                     match result {
                         Ok(list) => {
@@ -404,7 +404,7 @@ pub async fn step_auth(h: &mut Harness, op: &Op) {
         }
         Op::GetUser { c, user } => {
             if authed(h, *c) {
-                let result = h.clients[*c].as_ref().unwrap().get_user(&user.to_identifier()).await;
+                let result = crate::routed!(h, *c, get_user(&user.to_identifier()));
                 if h.perm_gate_found("get_user", matches!(result, Ok(Some(_))), result.is_ok(), result.as_ref().err()) {
                     let uid = h.model.user_id(user);
                     match (result, uid) {
@@ -494,7 +494,7 @@ async fn create_user(h: &mut Harness, c: usize, name: &str, password: &str, acti
     }
     probe_rules(h, perms);
     let status = if active { UserStatus::Active } else { UserStatus::Inactive };
-    let result = h.clients[c].as_ref().unwrap().create_user(name, password, status, perms.as_ref().map(to_sdk_permissions)).await;
+    let result = crate::routed!(h, c, create_user(name, password, status, perms.as_ref().map(to_sdk_permissions)));
     if !h.perm_gate("create_user", result.is_ok(), result.as_ref().err()) {
         return;
     }
@@ -525,7 +525,7 @@ async fn delete_user(h: &mut Harness, c: usize, user: &IdRef) {
     if !authed(h, c) {
         return;
     }
-    let result = h.clients[c].as_ref().unwrap().delete_user(&user.to_identifier()).await;
+    let result = crate::routed!(h, c, delete_user(&user.to_identifier()));
     let uid = h.model.user_id(user);
     if uid == Some(1) {
         if result.is_ok() {
@@ -561,7 +561,7 @@ async fn update_user(h: &mut Harness, c: usize, user: &IdRef, name: &Option<Stri
         return;
     }
     let status = active.map(|a| if a { UserStatus::Active } else { UserStatus::Inactive });
-    let result = h.clients[c].as_ref().unwrap().update_user(&user.to_identifier(), name.as_deref(), status).await;
+    let result = crate::routed!(h, c, update_user(&user.to_identifier(), name.as_deref(), status));
     if !h.perm_gate("update_user", result.is_ok(), result.as_ref().err()) {
         return;
     }
@@ -594,7 +594,7 @@ async fn update_permissions(h: &mut Harness, c: usize, user: &IdRef, perms: &Opt
         return;
     }
     probe_rules(h, perms);
-    let result = h.clients[c].as_ref().unwrap().update_permissions(&user.to_identifier(), perms.as_ref().map(to_sdk_permissions)).await;
+    let result = crate::routed!(h, c, update_permissions(&user.to_identifier(), perms.as_ref().map(to_sdk_permissions)));
     let uid = h.model.user_id(user);
     if uid == Some(1) {
         if result.is_ok() {
@@ -620,7 +620,7 @@ async fn change_password(h: &mut Harness, c: usize, user: &IdRef, current: &str,
     if !authed(h, c) {
         return;
     }
-    let result = h.clients[c].as_ref().unwrap().change_password(&user.to_identifier(), current, new).await;
+    let result = crate::routed!(h, c, change_password(&user.to_identifier(), current, new));
     if !h.perm_gate("change_password", result.is_ok(), result.as_ref().err()) {
         return;
     }
@@ -707,7 +707,7 @@ async fn create_pat(h: &mut Harness, c: usize, name: &str, expiry_micros: u64) {
     }
     let expiry = if expiry_micros == 0 { IggyExpiry::NeverExpire } else { IggyExpiry::ExpireDuration(IggyDuration::from(expiry_micros)) };
     let now_lo = h.sim.now_micros();
-    let result = h.clients[c].as_ref().unwrap().create_personal_access_token(name, expiry).await;
+    let result = crate::routed!(h, c, create_personal_access_token(name, expiry));
     let now_hi = h.sim.now_micros();
     let uid = h.model.sessions[c].user;
     let Some(user) = h.model.users.get(&uid).cloned() else { return };
@@ -742,7 +742,7 @@ async fn delete_pat(h: &mut Harness, c: usize, name: &str) {
     if !authed(h, c) {
         return;
     }
-    let result = h.clients[c].as_ref().unwrap().delete_personal_access_token(name).await;
+    let result = crate::routed!(h, c, delete_personal_access_token(name));
     let uid = h.model.sessions[c].user;
     let Some(user) = h.model.users.get_mut(&uid) else { return };
     let had = user.pats.contains_key(name);
